@@ -156,6 +156,8 @@ class Tr:
                 return pre, conv_int("(- %s)" % t, ty)
             if op == "~" and ty[0] == "u":
                 return pre, "(Z.lxor %s (2^%d - 1))" % (t, ty[1])
+            if op == "~" and ty[0] == "i":
+                return pre, "(- %s - 1)" % t          # two's complement (what gcc and clang implement)
             if op == "+":
                 return pre, t
             if op == "!":
